@@ -245,6 +245,8 @@ def build():
             && forall|k: int| 0 <= k < self.private_input_rows@.len() ==> (#[trigger] self.private_input_rows@[k]).0 < self.witness_count''')
     g.ensures('no_hint_output_slot_is_also_created_by_a_const_or_public_row',
               'ret matches Ok(p) ==> forall|k: int| 0 <= k < self.ops@.len() ==> (cp_out(#[trigger] self.ops@[k]) matches Some(w) ==> !p.hint_output_wids@.contains(w))')
+    # C10 (open finding): a private input no ALU row uses is accepted by build() and by the runner and refused here, so the circuit cannot be proven
+    g.ensures('H_a_built_circuit_is_never_refused_for_a_private_input_no_alu_row_uses', 'ret matches Err(e) ==> !(e is UnclaimedPrivateInput)')
     g.ensures('ext_reads_cover_all_witnesses', 'ret matches Ok(p) ==> p.ext_reads@.len() >= self.witness_count')
 
     g.after('let hint_output_wids = clone_u32_set(&preprocessed.hint_output_wids);', '''
